@@ -534,7 +534,7 @@ pub fn strategy(g: &GenCfg) -> BoxedStrategy<Case> {
             // always a canceller in this family
             let c = canc.unwrap_or(Actor { ctx: TH, role: 9, ops: vec![Op(20, 0, 1_000)] });
             actors.push(c);
-            Case { fam: "cancel".into(), workers, pool, feat, cfg: vec![hold, nvals], actors, sched }
+            Case { fam: "cancel".into(), workers, pool, feat, cfg: vec![hold, nvals], actors, sched, weak: 0 }
         })
         .boxed()
 }
